@@ -414,6 +414,18 @@ fn judge(case: &Case, obs: &Obs) -> (Vec<Violation>, BTreeMap<String, u64>, bool
         }
         _ => return (v, reach, true),
     };
+    if case.family == "history" {
+        bump("histories_of_two_runs", 1);
+        match obs.runs.get(1) {
+            Some(Some(Ok(r2))) => {
+                if r2.len() < case.batches.get(1).map_or(0, |b| b.len()) {
+                    v.push(Violation { class: "history-later-run-lost".into(), detail: format!("the second run() of the history returned {} responses for {} plain queries", r2.len(), case.batches[1].len()) });
+                }
+            }
+            Some(Some(Err(e))) if hard_fired == 0 => v.push(Violation { class: "history-later-run-error".into(), detail: format!("the second run() of the history (plain queries) failed as a whole: {}", e) }),
+            _ => {} // (a panic is reported through the panic list; a hang through the budget)
+        }
+    }
     bump("responses", run.len() as u64);
     // every query is answered by a response that echoes it
     for q in batch {
@@ -494,6 +506,7 @@ impl Check for C12 {
         f[31] = "disk-full";
         f[19] = "cli";
         f[37] = "cli";
+        f[26] = "history";
         f[15] = "two-callers";
         f[39] = "two-callers";
         f[3] = "clock";
@@ -516,6 +529,35 @@ impl Check for C12 {
             let mut c = super::c19::C19.gen(seed ^ 0xC12, "cli", tier);
             c.check = "C12".into();
             c.family = "cli".into();
+            return c;
+        }
+        if family == "history" {
+            // a history on one application (round 10): the malformed batch, then a batch of plain queries, each run()
+            // call asking for a parallelism of its own (many workers first and few afterwards, or the other way
+            // round). Whatever the first call leaves behind in the application, the second must return too; a panic in
+            // any thread of any call is reported
+            let mut c = gen(seed, "malformed", tier);
+            c.family = family.to_string();
+            let mut r = Rng::new(seed ^ fnv64("C12-history"));
+            let plain: Vec<Value> = c.batches[0].iter().filter(|q| q.is_object() && q.get("_qid").map_or(false, |x| x.is_u64())).cloned().collect();
+            let mut later: Vec<Value> = vec![];
+            for k in 0..r.range(1, 7) as usize {
+                if let Some(q) = plain.get(k % plain.len().max(1)) {
+                    let mut q2 = q.clone();
+                    q2["_qid"] = json!(6000 + k as u64);
+                    later.push(q2);
+                }
+            }
+            c.batches.push(later);
+            if c.world.parallelism == 0 {
+                c.world.parallelism = 2;
+            }
+            c.run_parallelism = None;
+            let (a, b) = (r.range(1, 8), r.range(1, 8));
+            c.params["run_parallelism_per_run"] = json!([a.max(b), a.min(b)]);
+            if r.chance(0.3) {
+                c.params["run_parallelism_per_run"] = json!([a.min(b), a.max(b)]);
+            }
             return c;
         }
         if family == "two-callers" {
